@@ -406,6 +406,13 @@ class RefReader:
                         rec = seen.get(pn) or {"inbound": 0, "outbound": 0}
                         tr[proto][pn] = {d: self.traffic_leaf(rec[d], nic) for d in ("inbound", "outbound")}
             out["TRAFFIC"] = tr
+        if nic is not None and not nic.enabled:
+            # a disabled interface of an ON host whose counters for this step are not zero (frames captured before it
+            # was disabled within the step)
+            if count_off_default({k: v for k, v in out.items() if k == "NMNE"}):
+                self.masked.add("disabled-nic-nmne")
+            if count_off_default({k: v for k, v in out.items() if k == "TRAFFIC"}):
+                self.masked.add("disabled-nic-traffic")
         return out
 
     @staticmethod
